@@ -9,7 +9,8 @@
 From Coq Require Import List Arith Bool.
 From AV Require Import Base.Util Spec.Lang Spec.FA Spec.Minimal Spec.Regex Model.Decide Model.Subset Model.Minimize
      Model.RegexLex Model.RegexParse Model.RegexBuild Proofs.RegexCompile Proofs.RegexTotal
-     Model.Product Proofs.Compose Props.P_C05 Props.P_C05b Props.P_C06 Props.P_C07 Props.P_C10 Props.P_C11.
+     Model.Product Model.Construct Model.FiniteLang Spec.Preds Proofs.Minimize Proofs.Compose
+     Props.P_C05 Props.P_C05b Props.P_C06 Props.P_C07 Props.P_C10 Props.P_C11 Props.P_C15.
 Import ListNotations.
 
 Definition regex_to_min_dfa (cs : list nat) (alpha : option (list nat)) : res dfa :=
@@ -142,4 +143,47 @@ Example C05_example_equal_then_minify :
   valid_dfa a = true /\ valid_dfa b = true /\ valid_dfa c = true /\ valid_dfa d = true /\
   eq_m a b = Ok true /\ sz a = (3, false) /\ sz b = (2, true) /\
   eq_m c d = Ok true /\ sz c = (2, false) /\ sz d = (2, false).
+Proof. vm_compute. repeat split. Qed.
+
+(* ---- constructors then minify (C15 -> C05): an automaton that passes the minimality test of C15 (accessible,
+        pairwise distinguishable, no dead state when flagged partial - every language constructor's result does,
+        C15_constructors_minimal / C15_from_finite_language_minimal) keeps its size under minify(), and the result
+        compares equal to it.  The step "a result flagged partial comes from an operand flagged partial" is lemma
+        minify_inv of Proofs/Minimize.v; no C05 property theorem states it ---- *)
+Theorem C05_minify_keeps_size_of_minimal : forall m, valid_dfa m = true -> Construct.is_minimal m = true ->
+  exists R, minify m = Ok R /\ size R = size m /\ L_dfa R =L L_dfa m /\ eq_m R m = Ok true.
+Proof.
+  intros m Hv Hm. destruct (C15_is_minimal_sound m Hv Hm) as [Mc Mp].
+  destruct (C05_minify m Hv) as [R [ER [VR [LR _]]]]. destruct (C05_minify_valid m R Hv ER) as [_ [SR Hle]].
+  exists R. split; [exact ER|]. split; [|split; [exact LR|]].
+  - apply Nat.le_antisymm; [exact Hle|]. destruct (d_partial R) eqn:Ep.
+    + assert (Epm : d_partial m = true).
+      { destruct (d_partial m) eqn:Epm; [reflexivity|]. rewrite (proj2 (minify_inv m R Hv ER) Epm) in Ep. discriminate. }
+      exact (Mp Epm R VR SR LR).
+    + exact (Mc R VR (proj1 (C05_minify_kind m R Hv ER) Ep) SR LR).
+  - destruct (C06_eq_ne R m VR Hv (same_syms_eq R m SR)) as [[b [Eb Hb]] _]. rewrite Eb. f_equal. apply Hb. exact LR.
+Qed.
+Print Assumptions C05_minify_keeps_size_of_minimal.
+
+(* instance: DFA.from_finite_language(lang).minify() has as many states as DFA.from_finite_language(lang) *)
+Theorem C05_finite_language_already_minimal : forall syms lang as_partial,
+  NoDup syms -> NoDup lang -> (forall w, In w lang -> word_over syms w) ->
+  (as_partial = false -> lang <> [] -> syms <> []) ->
+  exists m R, fl_dfa syms lang as_partial = Ok m /\ minify m = Ok R /\ size R = size m /\ eq_m R m = Ok true.
+Proof.
+  intros syms lang ap Hs Hl Ho Hside.
+  destruct (C15_from_finite_language_minimal syms lang ap Hs Hl Ho Hside) as [m [E [Hv [Hm _]]]].
+  destruct (C05_minify_keeps_size_of_minimal m Hv Hm) as [R [ER [Sz [_ Eq]]]].
+  exists m, R. split; [exact E|]. split; [exact ER|]. split; assumption.
+Qed.
+Print Assumptions C05_finite_language_already_minimal.
+
+Example C05_example_constructor_then_minify :
+  let sz r := match r with Ok m => match minify m with Ok R => (size m, size R, Construct.is_minimal m) | Err _ => (0, 0, false) end
+                         | Err _ => (0, 0, false) end in
+  sz (fl_dfa [0; 1] [[0; 1]; [0; 0; 1]; [1]; [1; 1]; []] true) = (5, 5, true) /\
+  sz (fl_dfa [0; 1] [[0; 1]; [0; 0; 1]; [1]; [1; 1]; []] false) = (6, 6, true) /\
+  sz (Ok (from_substring_m [0; 1] [0; 0; 1; 0; 0] true false)) = (6, 6, true) /\
+  (* and an automaton that fails the test shrinks *)
+  sz (Ok (of_length_m [0; 1] 2 (Some 1) None)) = (3, 1, false).
 Proof. vm_compute. repeat split. Qed.
